@@ -437,7 +437,7 @@ class Orchestrator:  # thailint: ignore[srp]
         """Collect results from parallel futures."""
         violations: list[Violation] = []
         for future in as_completed(futures):
-            _verif_emit("done", i=futures.index(future))
+            _verif_emit("done", i=list(futures).index(future))
             violations.extend(self._extract_violations_from_future(future))
         return violations
 
